@@ -870,7 +870,7 @@ func variants(r *vgen.Rand, p *pkt, spiKind int, wire bool) []variant {
 		add("hop-ingress", false, func(q *pkt) { q.Path.Hops[r.Intn(nh)].In ^= 1 << r.Intn(16) })
 		add("hop-egress", false, func(q *pkt) { q.Path.Hops[r.Intn(nh)].Eg ^= 1 << r.Intn(16) })
 		add("hop-mac", false, func(q *pkt) { q.Path.Hops[r.Intn(nh)].Mac[r.Intn(6)] ^= 1 << r.Intn(8) })
-		if ni >= 2 && nh >= 3 {
+		if ni >= 2 && nh > ni {
 			// move one hop field from one segment to a neighbouring one: only SegLen changes
 			add("seg-len", false, func(q *pkt) {
 				s := &q.Path.M.Seg
